@@ -10,6 +10,7 @@ const maxCount = 16 * 1024
 
 type Map struct {
 	mu        sync.Mutex
+	started   bool
 	next      uint16
 	nextPid   uint16
 	delta     uint16
@@ -31,8 +32,9 @@ func (m *Map) Map(seqno uint16, pid uint16) (bool, uint16, uint16) {
 	defer m.mu.Unlock()
 
 	if m.delta == 0 && m.entries == nil {
-		if compare(m.next, seqno) <= 0 ||
+		if !m.started || compare(m.next, seqno) <= 0 ||
 			uint16(m.next-seqno) > 8*1024 {
+			m.started = true
 			m.next = seqno + 1
 			m.nextPid = pid
 		}
@@ -193,6 +195,13 @@ func (m *Map) Reverse(seqno uint16) (bool, uint16, uint16) {
 func (m *Map) Drop(seqno uint16, pid uint16) bool {
 	m.mu.Lock()
 	defer m.mu.Unlock()
+
+	if !m.started {
+		// the very first packet defines the start of the stream
+		m.started = true
+		m.next = seqno
+		m.nextPid = pid
+	}
 
 	if seqno != m.next {
 		return false
